@@ -41,6 +41,8 @@ func main() {
 	fs.StringVar(&cfg.Tier, "tier", "quick", "quick|thorough")
 	fs.StringVar(&cfg.Mode, "mode", "", "sub-mode (property specific)")
 	fs.StringVar(&cfg.Arg, "arg", "", "extra argument (property specific)")
+	fs.IntVar(&cfg.Shard, "shard", 0, "index of this shard")
+	fs.IntVar(&cfg.NShards, "nshards", 1, "number of shards of this run")
 	fs.Parse(os.Args[2:])
 	if cfg.JSON != "" {
 		progressPath = cfg.JSON + ".progress"
